@@ -8,7 +8,7 @@ THEOREMS = ["SCP.C17." + t for t in """mem_charMapFrom nchars_new pos_le_nchars 
 step_wf pipeline_ordered ordered_consecutive old_collision_witness""".split()]
 RULE = ("lines of the shared generators (arithmetic, money, percent, dates, durations, times with zones, units, variables over several "
         "lines, comments) with words from a curated alphabet inserted before / between / after tokens: 2-, 3-, 4-byte characters, characters "
-        "whose case mapping changes their byte length (İ ß ŉ ǰ ΐ ﬁ ﬃ K Ω), combining marks, RTL currency symbols, Turkish words, in en and tr; "
+        "whose case mapping changes their byte length (İ ß ŉ ǰ ΐ ﬁ ﬃ K Ω), combining marks, RTL currency symbols, blanks other than U+0020 (U+00A0 U+2009 U+3000 U+202F U+2003) glued to numbers / operators / inside comments, Turkish words, in en and tr; "
         "oracle 1 (every line): 0 <= start < end <= number of characters, ordered by start, no overlap; oracle 2 (structured lines whose "
         "pieces are known): every number literal, operator character and comment has a token of its own kind covering exactly its characters; "
         "tie: the implementation's operation log (hook, target verif_ui) of EVERY collection is replayed on the Lean model: final tokens and "
@@ -20,6 +20,7 @@ ALPHA = ["ğüş", "çay", "İİİİ", "ß", "ŉ", "ǰ", "ΐ", "ﬁ", "ﬃ", "K"
          "ÇOK", "naïve", "ʼn", "ẞ", "ǅ", "‏", "x̀y", "λόγος", "שלום", "ŉŉ", "İß"]
 ASCII_WORDS = ["foo", "bar", "total", "note"]
 OPS = ["+", "-", "*", "/", "(", ")"]
+XBLANK = ["\u00a0", "\u2009", "\u3000", "\u202f", "\u2003"]
 
 
 def noisy(rng, text):
@@ -54,18 +55,23 @@ def structured(rng):
         elif k < 0.65 and prev != "op":
             pieces.append(("Operator", rng.choice(OPS)))
             prev = "op"
+        elif k < 0.75:
+            # a blank that is not U+0020 (2- and 3-byte): an operator character of its own
+            pieces.append(("Operator", rng.choice(XBLANK)))
+            prev = "xb"
         else:
             pieces.append((None, rng.choice(ALPHA + ASCII_WORDS)))
             prev = "word"
     text, exp = "", []
     for kind, s in pieces:
         if text:
-            text += " " * rng.choice([1, 1, 2])
+            glue = (s in XBLANK or text[-1] in XBLANK) and rng.random() < 0.6
+            text += "" if glue else " " * rng.choice([1, 1, 2])
         if kind:
             exp.append((len(text), len(text) + len(s), kind))
         text += s
     if rng.random() < 0.4:
-        c = "# " + rng.choice(ALPHA) + rng.choice(["", " 12 + 5", " may"])
+        c = "# " + rng.choice(ALPHA) + rng.choice(["", " 12 + 5", " may", "\u00a0b", "\u3000 7"])
         text += " "
         exp.append((len(text), len(text) + len(c), "Comment"))
         text += c
